@@ -115,6 +115,25 @@ func (nativeThriftType) ThriftFile() string { return "" }
 // step.
 type typeSpecReference ast.TypeReference
 
+// lookup finds the TypeSpec that the reference points to without linking it.
+func (r typeSpecReference) lookup(scope Scope) (TypeSpec, error) {
+	src := ast.TypeReference(r)
+	if t, err := scope.LookupType(src.Name); err == nil {
+		return t, nil
+	}
+
+	mname, iname := splitInclude(src.Name)
+	if len(mname) == 0 {
+		return nil, lookupError{Name: src.Name}
+	}
+
+	includedScope, err := getIncludedScope(scope, mname)
+	if err != nil {
+		return nil, err
+	}
+	return typeSpecReference{Name: iname}.lookup(includedScope)
+}
+
 // Link replaces the typeSpecReference with an actual linked TypeSpec.
 func (r typeSpecReference) Link(scope Scope) (TypeSpec, error) {
 	src := ast.TypeReference(r)
